@@ -399,3 +399,76 @@ fn c04_edges_bistables_trace_6() {
         i += 1;
     }
 }
+
+// @verif prop=C04 kernel=K1 tiers=quick,thorough timeout=900
+// @verif what=CTUD from new(): CV follows the IEC body (R over LD over counting; a simultaneous CU and CD edge does not count; saturation), QU = CV >= PV, QD = CV <= 0, every prefix of 5 calls
+// @verif fns=trust_runtime::stdlib::fbs::Ctud::new, Ctud::step
+// @verif bound=5 calls from new(); CU, CD, R, LD arbitrary; PV arbitrary i16 per call
+#[kani::proof]
+#[kani::unwind(8)]
+fn c04_ctud_trace_5() {
+    const K: usize = 5;
+    let mut c = Ctud::new();
+    let mut cus = [false; K];
+    let mut cds = [false; K];
+    let mut rs = [false; K];
+    let mut lds = [false; K];
+    let mut pvs = [0i16; K];
+    let mut i = 0;
+    while i < K {
+        cus[i] = kani::any(); cds[i] = kani::any(); rs[i] = kani::any(); lds[i] = kani::any(); pvs[i] = kani::any();
+        let out = c.step(cus[i], cds[i], rs[i], lds[i], pvs[i]);
+        // whole-history model in unbounded integers
+        let mut cv: i64 = 0;
+        let mut j = 0;
+        while j <= i {
+            let ru = cus[j] && (j == 0 || !cus[j - 1]);
+            let rd = cds[j] && (j == 0 || !cds[j - 1]);
+            if rs[j] { cv = 0; }
+            else if lds[j] { cv = pvs[j] as i64; }
+            else if ru && rd { }
+            else if ru { if cv < 32767 { cv += 1; } }
+            else if rd { if cv > -32768 { cv -= 1; } }
+            j += 1;
+        }
+        assert!(out.cv as i64 == cv, "CTUD.CV differs from the IEC model");
+        assert!(out.qu == (cv >= pvs[i] as i64), "CTUD.QU differs from CV >= PV");
+        assert!(out.qd == (cv <= 0), "CTUD.QD differs from CV <= 0");
+        kani::cover!(i == K - 1 && out.cv == 2 && !out.qd);
+        kani::cover!(i == K - 1 && out.cv == -2);
+        i += 1;
+    }
+}
+
+// @verif prop=C04 kernel=K1 tiers=quick,thorough timeout=900
+// @verif what=instances are independent: the outputs of a TON / TP / CTU instance are the same whether or not calls of another instance of the same kind are interleaved with arbitrary inputs
+// @verif fns=Ton::step, Tp::step, Ctu::step
+// @verif bound=3 calls of the observed instance with up to one arbitrary call of a second instance before each
+#[kani::proof]
+#[kani::unwind(5)]
+fn c04_instances_independent() {
+    let mut a = Ton::new(); let mut a_alone = Ton::new(); let mut b = Ton::new();
+    let mut p = Tp::new(); let mut p_alone = Tp::new(); let mut q = Tp::new();
+    let mut c = Ctu::new(); let mut c_alone = Ctu::new(); let mut d = Ctu::new();
+    let mut i = 0;
+    while i < 3 {
+        if kani::any() {
+            let dtb: i64 = kani::any(); kani::assume(dtb >= 0 && dtb < (1 << 40));
+            let _ = b.step(kani::any(), Duration::from_nanos(kani::any()), Duration::from_nanos(dtb));
+            let _ = q.step(kani::any(), Duration::from_nanos(kani::any()), Duration::from_nanos(dtb));
+            let _ = d.step(kani::any(), kani::any(), kani::any());
+        }
+        let (inp, pt, dt): (bool, i64, i64) = (kani::any(), kani::any(), kani::any());
+        kani::assume(dt >= 0 && dt < (1 << 40));
+        let o1 = a.step(inp, Duration::from_nanos(pt), Duration::from_nanos(dt));
+        let o2 = a_alone.step(inp, Duration::from_nanos(pt), Duration::from_nanos(dt));
+        assert!(o1 == o2, "TON output depends on calls of another instance");
+        let r1 = p.step(inp, Duration::from_nanos(pt), Duration::from_nanos(dt));
+        let r2 = p_alone.step(inp, Duration::from_nanos(pt), Duration::from_nanos(dt));
+        assert!(r1 == r2, "TP output depends on calls of another instance");
+        let (cu, r, pv): (bool, bool, i16) = (kani::any(), kani::any(), kani::any());
+        assert!(c.step(cu, r, pv) == c_alone.step(cu, r, pv), "CTU output depends on calls of another instance");
+        kani::cover!(i == 2 && o1.q);
+        i += 1;
+    }
+}
